@@ -49,7 +49,16 @@ OPS = [
     ("q22", "", "", "{ me { username reviews { body product { name reviews { author { id history { __typename } } } } } } }"),
     ("q23", "", "", "{ topProducts { name inStock reviews { body product { price } } } me { id } }"),
     ("q24", "", "", "{ me { id realName reviews { body author { realName } product { upc inStock } } } }"),
+    # the same operations planned with EnableMultiFetch (ids in MULTI): same-subgraph entity fetches of one wave become one MultiEntityFetch
+    ("m07", "", "", "{ me { username reviews { body } } topProducts { name reviews { body } } }"),
+    ("m08", "", "", "{ me { username history { __typename ... on Purchase { wallet { amount } product { upc name } } ... on Sale { rating product { upc price } } } } }"),
+    ("m19", "", "", "{ me { username reviews { body product { name } } } topProducts { name price reviews { author { username } } } cat { name } }"),
 ]
+MULTI = {"m07", "m08", "m19"}
+
+
+def op_dict(o):
+    return {"id": o[0], "name": o[1], "vars": o[2], "query": o[3], "multi": o[0] in MULTI}
 
 INVS = ["NoFabrication", "SameOperation", "Independent", "SkipJustified", "SkipHonoured", "ErrorReportedPerFetch", "DepsSettled",
         "ResponseWellFormed", "ErrorsNonEmpty", "Isolated"]
@@ -92,10 +101,12 @@ def provenance(plan):
             raise lib.Inconclusive("plan %s: fault-free subgraph answer is not JSON" % plan["id"])
         data = body.get("data") or {}
         base = strip_path(f["path"])
+        alias_path = {e["alias"]: strip_path(e["path"]) for e in (f.get("entries") or [])}
         if x["is_entity"]:
             for k, v in data.items():
                 for e in (v or []):
-                    collect_paths(e, base, f["id"], src)
+                    # MultiEntityFetch: every aliased _entities field belongs to one merged fetch with its own response path
+                    collect_paths(e, alias_path.get(k, base), f["id"], src)
         else:
             collect_paths(data, base, f["id"], src)
     return src
@@ -137,9 +148,22 @@ class PlanInfo:
         self.id = plan["id"]
         self.fetches = sorted(plan["fetches"], key=lambda f: f["id"])
         self.n = len(self.fetches)
-        ids = [f["id"] for f in self.fetches]
-        if ids != list(range(self.n)):
-            raise lib.Inconclusive("plan %s: fetch ids are not 0..n-1: %s" % (self.id, ids))
+        # fetch ids of the plan need not be contiguous (MultiEntityFetch swallows ids): python and TLC use the index
+        self.real = [f["id"] for f in self.fetches]
+        self.idx = {r: i for i, r in enumerate(self.real)}
+        if len(self.idx) != self.n:
+            raise lib.Inconclusive("plan %s: duplicate fetch ids %s" % (self.id, self.real))
+        for f in self.fetches:
+            f["id"] = self.idx[f["id"]]
+            f["deps"] = [self.idx[d] for d in f["deps"] if d in self.idx]
+
+        def renum(t):
+            if t["k"] == "F":
+                t["id"] = self.idx[t["id"]]
+            for c in t.get("c", []):
+                renum(c)
+        renum(plan["tree"])
+        self.normalise(plan)
         self.r0 = {}
         for x in plan["exchanges"]:
             if x["fetch"] in self.r0:
@@ -171,6 +195,18 @@ class PlanInfo:
             raise lib.Inconclusive("plan %s: no provenance / type for response positions %s" % (self.id, missing[:5]))
         self.tree = tla_tree(plan["tree"])
 
+    def normalise(self, res):
+        """driver output (real fetch ids) -> index space"""
+        for x in res["exchanges"]:
+            x["fetch"] = self.idx.get(x["fetch"], -1)
+        for e in res["events"]:
+            e["a"] = self.idx.get(e["a"], -1)
+
+    def driver_case(self, c):
+        """case in index space -> driver input (real fetch ids)"""
+        return {"id": c["id"], "op": c["op"], "faults": {str(self.real[int(k)]): v for k, v in c["faults"].items()},
+                "order": [self.real[f] for f in c["order"]]}
+
     def shape_line(self):
         return {"op": self.id, "n": self.n, "tree": self.tree,
                 "entity": [1 if (self.r0.get(f["id"]) or {}).get("is_entity") else 0 for f in self.fetches]}
@@ -181,7 +217,13 @@ class PlanInfo:
         sent because its dependency failed is no failure."""
         if res is not None:
             hit = {str(x["fetch"]) for x in res["exchanges"] if x["applied"]}
-            faults = {k: v for k, v in faults.items() if k in hit}
+            # a 5xx with a valid body that the gateway used (its merge added no error) is no failure either
+            cnt = {}
+            for e in res["events"]:
+                if e["p"] in ("ld.merging", "ld.merged"):
+                    cnt.setdefault(str(e["a"]), []).append(e["b"])
+            used = {k for k, v in cnt.items() if len(v) == 2 and v[0] == v[1]}
+            faults = {k: v for k, v in faults.items() if k in hit and not (v == "Non2xxJSON" and k in used)}
         return "+".join(sorted("%s/%s" % (self.fetches[int(k)]["kind"], v) for k, v in faults.items()))
 
 
@@ -246,7 +288,7 @@ def trace_of(pi, res):
 WEDGES = {"n": 0}
 
 
-def run_driver(ctx, binary, ops_path, cases, tag_):
+def run_driver(ctx, binary, ops_path, cases, tag_, plans):
     """Run the driver over the cases; restarts it when a case wedged (the driver exits 3 after a wedged case).
     After 3 wedged cases in total the replay stops early (every further one would cost 15 s)."""
     results = []
@@ -256,7 +298,7 @@ def run_driver(ctx, binary, ops_path, cases, tag_):
         rounds += 1
         cp = ctx.path("cases-%s-%d.ndjson" % (tag_, rounds))
         rp = ctx.path("results-%s-%d.ndjson" % (tag_, rounds))
-        lib.write_ndjson(cp, todo)
+        lib.write_ndjson(cp, [plans[c["op"]].driver_case(c) for c in todo])
         e = dict(os.environ)
         e["VERIF_SEED"] = str(ctx.seed)
         try:
@@ -265,6 +307,8 @@ def run_driver(ctx, binary, ops_path, cases, tag_):
         except subprocess.TimeoutExpired:
             raise lib.Inconclusive("driver faults timed out")
         got = lib.read_ndjson(rp) if os.path.exists(rp) else []
+        for g_ in got:
+            plans[g_["op"]].normalise(g_)
         results += got
         if p.returncode == 0:
             break
@@ -331,7 +375,8 @@ def replay(ctx, binary):
     with open(ctx.replay_in) as f:
         rep = json.load(f)
     case = rep["case"]["case"]
-    op = rep["case"].get("operation") or dict(zip(("id", "name", "vars", "query"), next(o for o in OPS if o[0] == case["op"])))
+    op = rep["case"].get("operation") or op_dict(next(o for o in OPS if o[0] == case["op"]))
+    op.setdefault("multi", op["id"] in MULTI)
     ops_path = ctx.path("ops.json")
     with open(ops_path, "w") as f:
         json.dump([op], f)
@@ -339,7 +384,7 @@ def replay(ctx, binary):
     ctx.run_bin(binary, ["-mode", "plan", "-in", ops_path, "-out", pp], timeout=300)
     pi = PlanInfo(lib.read_ndjson(pp)[0])
     case = dict(case, id="replay")
-    res = run_driver(ctx, binary, ops_path, [case], "replay")[0]
+    res = run_driver(ctx, binary, ops_path, [case], "replay", {pi.id: pi})[0]
     res["case"] = case
     print("response:", res["response"])
     if res["panic"] or not res["arrived"]:
@@ -383,7 +428,7 @@ def run(ctx):
     if r.violated != "Independent":
         raise lib.Inconclusive("sanity: the skip-on-any-error loader should violate Independent in the model, got %r" % r.error)
     # ---- 2. real plans ----------------------------------------------------------------------------
-    ops = [{"id": i, "name": n, "vars": v, "query": q} for (i, n, v, q) in OPS]
+    ops = [op_dict(o) for o in OPS]
     ops_path = ctx.path("ops.json")
     with open(ops_path, "w") as f:
         json.dump(ops, f)
@@ -414,7 +459,16 @@ def run(ctx):
     small = [c for c in cases if c["nf"] <= 1 or c["all"]]
     big = [c for c in cases if not (c["nf"] <= 1 or c["all"])]
     rng.shuffle(big)
-    cap = 600 if quick else 10 ** 9
+    cap = 400 if quick else 10 ** 9
+    if quick and len(small) > 1200:
+        # every (operation, fault assignment) at least once, the remaining completion orders sampled
+        first, rest, seen = [], [], set()
+        for c in small:
+            k = (c["op"], json.dumps(c["faults"], sort_keys=True))
+            (rest if k in seen else first).append(c)
+            seen.add(k)
+        rng.shuffle(rest)
+        small = first + rest[:max(0, 1200 - len(first))]
     chosen = small + big[:cap]
     for i, c in enumerate(chosen):
         c["id"] = "c%06d" % i
@@ -423,7 +477,7 @@ def run(ctx):
     nproc = 6
     chunks = [chosen[i::nproc] for i in range(nproc)]
     with cf.ThreadPoolExecutor(max_workers=nproc) as ex:
-        futs = [ex.submit(run_driver, ctx, binary, ops_path, ch, "p%d" % i) for i, ch in enumerate(chunks) if ch]
+        futs = [ex.submit(run_driver, ctx, binary, ops_path, ch, "p%d" % i, plans) for i, ch in enumerate(chunks) if ch]
         results = [r for f in futs for r in f.result()]
     by_id = {c["id"]: c for c in chosen}
     ctx.log("replayed %d cases" % len(results))
@@ -434,7 +488,7 @@ def run(ctx):
         if r["panic"]:
             pi = plans[r["op"]]
             ctx.violation("panic:%s" % pi.sig(r["case"]["faults"]), "panic while resolving under faults: %s" % r["panic"][:300],
-                          {"case": r["case"], "op": dict(zip(("id", "name", "vars", "query"), next(o for o in OPS if o[0] == r["op"]))), "result": r})
+                          {"case": r["case"], "operation": op_dict(next(o for o in OPS if o[0] == r["op"])), "result": r})
         elif not r["arrived"] or r["unrealised"]:
             retry.append(r)
         else:
@@ -449,7 +503,7 @@ def run(ctx):
             continue
         # a miss is re-run once, alone, before it counts
         WEDGES["n"] = 0
-        again = run_driver(ctx, binary, ops_path, [r["case"]], "retry-" + r["id"])
+        again = run_driver(ctx, binary, ops_path, [r["case"]], "retry-" + r["id"], plans)
         a = again[0] if again else r
         a["case"] = r["case"]
         pi = plans[r["op"]]
@@ -499,7 +553,7 @@ def run(ctx):
             what = "invariant %s is false on the trace recorded from the real loader" % verdict
         op = next(o for o in OPS if o[0] == r["op"])
         ctx.violation(key, "%s; operation %s %s, faults %s, order %s; response %s" % (what, r["op"], op[3], r["case"]["faults"], r["case"]["order"], r["response"][:400]),
-                      {"case": r["case"], "operation": {"id": op[0], "name": op[1], "vars": op[2], "query": op[3]},
+                      {"case": r["case"], "operation": op_dict(op),
                        "fetches": pi.fetches, "fault_free_response": pi.plan["response"], "response": r["response"],
                        "exchanges": r["exchanges"], "events": r["events"], "tlc": verdict, "failing_event": {k: v for k, v in ev.items() if k not in ("a", "x")}})
     validated = len(ok_results) - len(bad)
@@ -554,5 +608,6 @@ def run(ctx):
         "nullability of response positions comes from the supergraph SDL parsed with gqlparser (independent of the code under test)",
         "exchange -> fetch id correlation uses the ld.load hook fired in the goroutine that performs the request",
         "'promptly' = within 10 s of the request (in-process subgraphs answer in microseconds); a miss is re-run once",
-        "fault kinds: Transport, 500+HTML, empty body, non-JSON, errors without data, data:null, _entities one element short",
+        "fault kinds: Transport, 500+HTML, empty body, non-JSON, errors without data, data:null, _entities one element short, "
+        "data+errors (last entity / last root field nulled and reported), 503 with the genuine valid JSON body (may be used or rejected, consistently)",
     ]
